@@ -162,6 +162,14 @@ func buildType(t *tdesc) (reflect.Type, error) {
 		return st, nil
 	}
 	switch t.K {
+	case "chan": // kinds outside the property's quantifier: only "rejected with an error, not a panic" is observed
+		return reflect.TypeOf(make(chan int)), nil
+	case "func":
+		return reflect.TypeOf(func() {}), nil
+	case "complex":
+		return reflect.TypeOf(complex128(0)), nil
+	case "mapint":
+		return reflect.TypeOf(map[int]int{}), nil
 	case "named":
 		if nt, ok := namedTypes[t.ID]; ok {
 			return nt, nil
